@@ -172,6 +172,12 @@ def confirm_lookup_model(program: Program):
 Piece = Tuple[str, Any]  # ('lit', text) | ('arg', index) | ('opaque', source)
 
 
+class ArgPiece(tuple):
+    """('arg', index) that remembers how the operand is rendered: parens = the constant handed over as want_inline_parens (None: not a constant)"""
+    parens = False
+    node = None
+
+
 def fold_function(fn: ast.AST) -> List[List[Piece]]:
     """one folded template per return statement of a formatter function"""
     if isinstance(fn, ast.Lambda):
@@ -265,7 +271,11 @@ def fold_expr(e: ast.AST, env: Dict[str, ast.AST], params: List[str], depth: int
         if dn == f"{model_param}.expr_to_sql" and e.args:
             a = e.args[0]
             if isinstance(a, ast.Subscript) and unparse(a.value) == f"{expr_param}.args" and isinstance(a.slice, ast.Constant):
-                return [("arg", a.slice.value)]
+                piece = ArgPiece(("arg", a.slice.value))
+                kw = {k.arg: k.value for k in e.keywords}.get("want_inline_parens")
+                piece.parens = False if kw is None else (kw.value if isinstance(kw, ast.Constant) else None)
+                piece.node = e
+                return [piece]
         if dn == "str" and len(e.args) == 1:
             return fold_expr(e.args[0], env, params, depth + 1)
         inl = _inline_helper(e, env, params, depth)
